@@ -632,8 +632,8 @@ func retained(nd *knode, v float64) bool {
 }
 
 func (hookC05) query(x *fleetExec, e engine.Event, nd *knode) {
-	if nd.model.NonUnit || nd.model.Lossy || nd.exact() {
-		return
+	if nd.model.NonUnit || nd.model.Lossy || nd.exact() || !refmodel.IsCollapsing(nd.spec.Store) {
+		return // non-collapsing partners answer for C01, not here
 	}
 	sig := x.sigFor(e)
 	items := nd.model.Sorted(nd.mapping.MinIndexableValue())
